@@ -51,7 +51,13 @@ static int sCheck(sqlite3_file *f, int *r){ simfile *s=(simfile*)f; return s->re
 static int sFileControl(sqlite3_file *f, int op, void *a){ simfile *s=(simfile*)f; return s->real->pMethods->xFileControl(s->real,op,a); }
 static int sSectorSize(sqlite3_file *f){ simfile *s=(simfile*)f; return s->real->pMethods->xSectorSize(s->real); }
 static int sDevChar(sqlite3_file *f){ simfile *s=(simfile*)f; return s->real->pMethods->xDeviceCharacteristics(s->real); }
-static sqlite3_io_methods simio = { 1, sClose, sRead, sWrite, sTruncate, sSync, sFileSize, sLock, sUnlock, sCheck, sFileControl, sSectorSize, sDevChar };
+// version-2 methods (shared memory for WAL mode) are forwarded untouched: a store that the real binary put into
+// WAL mode must stay usable under the shim; WAL frames still reach the disk through sWrite/sSync above
+static int sShmMap(sqlite3_file *f, int pg, int sz, int ext, void volatile **pp){ simfile *s=(simfile*)f; return s->real->pMethods->xShmMap(s->real,pg,sz,ext,pp); }
+static int sShmLock(sqlite3_file *f, int off, int n, int fl){ simfile *s=(simfile*)f; return s->real->pMethods->xShmLock(s->real,off,n,fl); }
+static void sShmBarrier(sqlite3_file *f){ simfile *s=(simfile*)f; s->real->pMethods->xShmBarrier(s->real); }
+static int sShmUnmap(sqlite3_file *f, int del){ simfile *s=(simfile*)f; return s->real->pMethods->xShmUnmap(s->real,del); }
+static sqlite3_io_methods simio = { 2, sClose, sRead, sWrite, sTruncate, sSync, sFileSize, sLock, sUnlock, sCheck, sFileControl, sSectorSize, sDevChar, sShmMap, sShmLock, sShmBarrier, sShmUnmap };
 
 static int vOpen(sqlite3_vfs *v, const char *name, sqlite3_file *f, int flags, int *out){
   simfile *s=(simfile*)f; s->real = sqlite3_malloc(realvfs->szOsFile); memset(s->real,0,realvfs->szOsFile);
